@@ -397,9 +397,12 @@ func (r *Runner) concIter(ts *taskState, i int, op *Op, judged bool) {
 				}
 			}
 			if pass == 0 {
-				for k, v := range cur {
+				for _, k := range order { // in yield order, not map order: the recorded history must replay byte for byte
+					if seen[k] {
+						continue
+					}
 					seen[k] = true
-					ts.hist = append(ts.hist, HistOp{1000 + ts.id*100 + i, "get", k, "", v, true, call, ret})
+					ts.hist = append(ts.hist, HistOp{1000 + ts.id*100 + i, "get", k, "", cur[k], true, call, ret})
 				}
 			} else {
 				// later passes over the same iterator must yield exactly the same snapshot
